@@ -3,6 +3,7 @@ package goatlang
 import (
 	"fmt"
 	"strings"
+	"unicode/utf8"
 
 	"golang.org/x/exp/maps"
 )
@@ -720,18 +721,15 @@ func (s stringT) Get(a Value) (Value, bool) { return Byte(s[a.Int()]), true }
 func (s stringT) Set(k, v Value)            { panic("unsupported") }
 func (s stringT) Len() int                  { return len(s) }
 func (s stringT) Range() func() (Value, Value, bool) {
-	var r []rune
-	for _, v := range s {
-		r = append(r, v)
-	}
 	n := 0
 	return func() (Value, Value, bool) {
-		if n >= len(r) {
+		if n >= len(s) {
 			return Nil(), Nil(), false
 		}
-		k, v := Int(n), r[n]
-		n++
-		return k, Int32(v), true
+		r, size := utf8.DecodeRuneInString(string(s[n:]))
+		k := Int(n)
+		n += size
+		return k, Int32(r), true
 	}
 }
 func (s stringT) Append(items ...Value) Value { panic("unsupported") }
